@@ -144,9 +144,14 @@ def oracle(parts, outcome, obs):
         expect_commit = False
         if tr and tr[0] in ("air", "surf"):
             par = int(tr[1])
-            slot[par] = (tr[0], t) + ((float(tr[2]), float(tr[3])) if tr[0] == "air" else (None, None))
+            fr = pyspec.frame_of_line(lines[0]) if lines else None
+            # a CPR field that is exactly 0 counts as not received (property text): such a slot supports no pair
+            zero = bool(fr and fr != "zero" and (getbits(fr[2], 112, 55, 71) == 0 or getbits(fr[2], 112, 72, 88) == 0))
+            slot[par] = (tr[0], t) + ((float(tr[2]), float(tr[3])) if tr[0] == "air" else (None, None)) + (zero,)
             other = slot[1 - par]
-            if tr[0] == "air" and other and other[0] == "air" and abs(t - other[1]) // 1000 < 10:
+            if tr[0] == "surf" and other and other[0] == "surf" and abs(t - other[1]) // 1000 < 10:
+                expect_commit = None     # a surface pair: outside the property (TC 9-18), its decoding is not judged
+            elif tr[0] == "air" and other and other[0] == "air" and abs(t - other[1]) // 1000 < 10 and not zero and not other[4]:
                 nl_a = sqlib._nl(slot[par][2])
                 nl_b = sqlib._nl(other[2])
                 # zone of the *recovered* latitudes; away from boundaries this is the zone of the true latitudes
